@@ -40,7 +40,7 @@ var prec struct {
 	sync.Mutex
 	active  bool
 	d       *dumper
-	views   map[onet.TreeNodeID]*viewRec
+	views   map[onet.TreeNodeID][]*viewRec // every report of a node, in order
 	insts   []*pproto
 	rootSrv network.ServerIdentityID
 }
@@ -109,9 +109,7 @@ func (p *pproto) record() {
 	}()
 	prec.Lock()
 	if prec.active {
-		if _, dup := prec.views[p.TreeNode().ID]; !dup {
-			prec.views[p.TreeNode().ID] = v
-		}
+		prec.views[p.TreeNode().ID] = append(prec.views[p.TreeNode().ID], v)
 	}
 	prec.Unlock()
 }
@@ -142,13 +140,26 @@ func runPropOnce(in input) (lib.Case, bool) {
 	ro := onet.NewRoster(ids)
 	d := newDumper()
 	d.rosterBare(ro)
-	tree := mkTree(ro, in.Tree)
+	var tree *onet.Tree
+	treePanic := ""
+	func() {
+		defer func() {
+			if e := recover(); e != nil {
+				treePanic = fmt.Sprint(e)
+			}
+		}()
+		tree = mkTree(ro, in.Tree)
+	}()
+	if tree == nil || tree.Root == nil {
+		lt.CloseAll()
+		return setupFailed(in, 2, "building the tree to propagate gave nothing: "+treePanic), true
+	}
 	senderLit, _ := d.tree(tree, false)
 	size := tree.Size()
 	prec.Lock()
 	prec.active = true
 	prec.d = d
-	prec.views = map[onet.TreeNodeID]*viewRec{}
+	prec.views = map[onet.TreeNodeID][]*viewRec{}
 	prec.insts = nil
 	prec.rootSrv = tree.Root.ServerIdentity.ID
 	prec.Unlock()
@@ -166,10 +177,23 @@ func runPropOnce(in input) (lib.Case, bool) {
 		}
 		lt.CloseAll()
 	}()
-	if _, err := lt.StartProtocol(propName, tree); err != nil {
-		return lib.Case{Discard: true, Class: "prop", Obs: "start: " + err.Error()}, true
-	}
+	startErr := ""
+	func() {
+		defer func() {
+			if e := recover(); e != nil {
+				startErr = fmt.Sprint("panic: ", e)
+			}
+		}()
+		if _, err := lt.StartProtocol(propName, tree); err != nil {
+			startErr = err.Error()
+		}
+	}()
 	deadline := time.Now().Add(20 * time.Second)
+	if startErr != "" {
+		// the protocol could not be started on the tree's own root: nobody will ever report;
+		// that is an observation (every view missing), not a reason to drop the case
+		deadline = time.Now()
+	}
 	for time.Now().Before(deadline) {
 		prec.Lock()
 		n := len(prec.views)
@@ -181,26 +205,28 @@ func runPropOnce(in input) (lib.Case, bool) {
 	}
 	prec.Lock()
 	views := prec.views
-	prec.views = map[onet.TreeNodeID]*viewRec{}
+	prec.views = map[onet.TreeNodeID][]*viewRec{}
 	prec.Unlock()
 	var lits []string
 	missing, crashed := 0, 0
 	for _, tn := range tree.List() {
-		v, ok := views[tn.ID]
 		nid := d.id(tn.ID)
 		onRoot := tn.ServerIdentity.ID.Equal(tree.Root.ServerIdentity.ID)
-		switch {
-		case !ok:
+		if len(views[tn.ID]) == 0 {
 			missing++
 			lits = append(lits, fmt.Sprintf("(mkView %d %s VMissing)", nid, lib.Bool(onRoot)))
-		case v.crash != "":
-			crashed++
-			lits = append(lits, fmt.Sprintf("(mkView %d %s VCrash)", nid, lib.Bool(onRoot)))
-		default:
-			lits = append(lits, fmt.Sprintf("(mkView %d %s (VOk %s %s %s %s))", nid, lib.Bool(v.onRoot), v.tree, lib.Bool(v.links), v.roster, lib.NatList(v.list)))
+		}
+		for _, v := range views[tn.ID] { // every report counts: a second, different view of a node is kept
+			if v.crash != "" {
+				crashed++
+				lits = append(lits, fmt.Sprintf("(mkView %d %s VCrash)", nid, lib.Bool(onRoot)))
+			} else {
+				lits = append(lits, fmt.Sprintf("(mkView %d %s (VOk %s %s %s %s))", nid, lib.Bool(v.onRoot), v.tree, lib.Bool(v.links), v.roster, lib.NatList(v.list)))
+			}
 		}
 	}
-	// several nodes may share one node id (ids derived from repeated servers): one view per id
+	// several nodes may share one node id (ids derived from repeated servers): the same
+	// literal is then produced once per such node; identical literals are written once
 	seen := map[string]bool{}
 	var uniq []string
 	for _, l := range lits {
@@ -210,18 +236,21 @@ func runPropOnce(in input) (lib.Case, bool) {
 		}
 	}
 	class := "prop-" + in.Name
+	if startErr != "" {
+		class += "+start-failed"
+	}
 	if in.Suite != "" && in.Suite != "Ed25519" {
 		class += "@" + in.Suite
 	}
-	obs := map[string]interface{}{"servers": in.Servers, "nodes": size, "views": len(views), "missing": missing, "crashed": crashed}
+	obs := map[string]interface{}{"start_error": startErr, "servers": in.Servers, "nodes": size, "views": len(views), "missing": missing, "crashed": crashed}
 	coq := fmt.Sprintf("CProp %s %s", senderLit, lib.List(uniq))
 	return lib.Case{Coq: coq, Class: class, Obs: obs, Nontrivial: size > 1,
-		Key: fmt.Sprintf("prop|%v|%d|%s|%v", in.Tree, in.Servers, in.Suite, in.Roster.Svc)}, missing == 0
+		Key: fmt.Sprintf("prop|%v|%d|%s|%v", in.Tree, in.Servers, in.Suite, in.Roster.Svc)}, missing == 0 || startErr != ""
 }
 
 func runProp(in input) lib.Case {
 	c, complete := runPropOnce(in)
-	if !complete && !c.Discard {
+	if !complete {
 		// a node that did not report within the deadline: try once more before reporting it
 		c, _ = runPropOnce(in)
 	}
